@@ -12,12 +12,34 @@ import (
 // leaf symbolic (strings of one byte), scores = small dyadic rationals (floats are concrete in the
 // engine). Timestamps stay zero (timestamppb is a blackholed dependency).
 
-func c24N(name string) int { return verifrt.Concretize(verifrt.IntRange(name, 0, 2)) }
+// list sizes: one outer size and one inner size per harness run (case split 0..2 each) instead of an
+// independent size per list, to keep the number of shapes small; which lists are empty together is
+// therefore correlated (stated in outside_claim).
+var c24Outer, c24Inner int
+
+func c24Shape() {
+	c24Outer = verifrt.Concretize(verifrt.IntRange("outer", 0, 2))
+	c24Inner = verifrt.Concretize(verifrt.IntRange("inner", 0, 2))
+}
+
+func c24N(name string) int {
+	switch name {
+	case "nlines", "nchunks", "nrepos", "nmap", "nbr", "nsub", "nbranches":
+		return c24Outer
+	}
+	return c24Inner
+}
 func c24S(name string) string { return verifrt.String(name, 1) }
-func c24F(name string) float64 { return float64(verifrt.Concretize(verifrt.IntRange(name, -2, 2))) / 2 }
+// scores: distinct concrete values (floats are concrete in the engine); distinctness exposes swapped fields
+var c24Fs int
+
+func c24F(name string) float64 { c24Fs++; return 0.5 + float64(c24Fs)/4 }
+
+var c24NilSyms int
 
 func c24Symbol() *Symbol {
-	if verifrt.Bool("nilsym") {
+	c24NilSyms++
+	if c24NilSyms == 1 && verifrt.Bool("nilsym") {
 		return nil
 	}
 	return &Symbol{Sym: c24S("sym"), Kind: c24S("kind"), Parent: c24S("par"), ParentKind: c24S("pk")}
@@ -44,6 +66,7 @@ func c24EqStrs(a, b []string) bool {
 func c24EqBytesList(a, b [][]byte) bool { return true }
 
 func H_C24_fileMatchRoundtrip() {
+	c24Shape()
 	fm := FileMatch{Score: c24F("score"), Debug: c24S("dbg"), FileName: c24S("fn"), Repository: c24S("repo"), RepositoryID: verifrt.U32("rid"),
 		RepositoryPriority: c24F("prio"), Content: verifrt.Bytes("content", c24N("ncontent")), Checksum: verifrt.Bytes("sum", c24N("nsum")),
 		Language: c24S("lang"), SubRepositoryName: c24S("srn"), SubRepositoryPath: c24S("srp"), Version: c24S("ver")}
@@ -178,6 +201,7 @@ func c24EqRepo(a, b *Repository) bool {
 }
 
 func H_C24_repositoryRoundtrip() {
+	c24Shape()
 	r := c24Repo(1)
 	back := RepositoryFromProto(r.ToProto())
 	verifrt.Assert(c24EqRepo(&r, &back), "Repository (branches, sub-repositories, config, path tombstones) survives the wire round trip")
@@ -186,6 +210,7 @@ func H_C24_repositoryRoundtrip() {
 }
 
 func H_C24_listRoundtrip() {
+	c24Shape()
 	var rl RepoList
 	rl.Crashes = verifrt.Int("crashes")
 	verifrt.FillInts(&rl.Stats, "liststats", 0, 1<<62, "")
